@@ -23,6 +23,8 @@ CHECKS = {
  "C14": ("for every index of the failing destination write (symbolic), every accepted byte count of that write up to the stated bound, sticky or transient, the solver shows that the API call during which the write failed returns a non-nil error, that no call panics and that the accepted bytes are a prefix of the fault-free output; and that an attachment source failing at any position or declaring any wrong size (64-bit symbolic) makes WriteAttachment return an error", "DESIGN.md §4 C14"),
  "C15": ("for one short read at any read call (symbolic index and size), for 1/2/5-byte reads and for data delivered together with EOF, lexer, non-indexed and indexed iterators are shown to return exactly the plain read; for a sticky I/O error at any byte position (symbolic, whole file covered by cells) the records returned are a content-equal prefix and the terminal error is non-nil and not io.EOF", "DESIGN.md §4 C15"),
  "C20": ("for every assignment of 64-bit log times to multi-chunk files (every overlap pattern of the chunk ranges) the solver shows that after every step of an index-based read the number of decompressed chunk buffers held is at most the overlap depth of the ranges (1 in file order); a validating lexer keeps one chunk buffer of at most twice the largest chunk and a non-validating one none; attachments of the enumerated sizes stream through writer and lexer with no single library allocation above 33000 bytes", "DESIGN.md §4 C20"),
+ "C05": ("the bytes the real writer delivers are decoded by a strict decoder written from the specification only and executed symbolically: grammar (magic, header, data section, chunk contents, definitions before uses, grouped summary, summary offsets, footer) and exactness of every chunk index, message index entry, attachment/metadata index, summary offset, footer field, chunk uncompressed size and chunk time range are shown for every field value and every combination of the symbolic Skip* flags on the enumerated templates", "DESIGN.md §4 C05"),
+ "C06": ("with the CRC as an uninterpreted fold, the stored data-section, summary, chunk and attachment checksums are shown equal to the fold over exactly the byte ranges the specification defines (and zero / still-correct when disabled) for every field value on the enumerated templates; any difference in which bytes are fed is a solver counterexample replayed with the real CRC-32", "DESIGN.md §4 C06"),
 }
 
 NA = {
